@@ -12,12 +12,15 @@ Section Maps.
   Fixpoint max_map (l : list A) : nat := match l with [] => O | x :: l' => Nat.max (f x) (max_map l') end.
 End Maps.
 
+(* the lists tolist() creates for a sub-array of shape dims *)
+Fixpoint nl (dims : list nat) : nat := match dims with [] => O | d :: ds => S (d * nl ds) end.
+
 Fixpoint size (v : pval) : nat :=
   match v with
   | PSeq _ _ _ _ _ l => S (sum_map (fun x => size x) l)
   | PDict _ _ _ l => (2 + sum_map (fun kv => size (snd kv)) l)%nat
   | PDefDict _ _ _ f l => (3 + size f + sum_map (fun kv => size (snd kv)) l)%nat
-  | PObjArr _ _ _ _ l => (3 + sum_map (fun x => size x) l)%nat
+  | PObjArr _ _ _ sh l => (3 + length sh + nl (map Z.to_nat sh) + sum_map (fun x => size x) l)%nat
   | PMasked _ _ _ d k => S (size d + size k)
   | PRandState _ _ _ x => S (size x)
   | PRandGen _ _ _ x y => S (size x + size y)
@@ -34,7 +37,7 @@ Fixpoint need (v : pval) : nat :=
   | PSeq _ _ _ _ _ l => S (max_map (fun x => need x) l)
   | PDict _ _ _ l => (3 + max_map (fun kv => need (snd kv)) l)%nat
   | PDefDict _ _ _ f l => (4 + Nat.max (need f) (max_map (fun kv => need (snd kv)) l))%nat
-  | PObjArr _ _ _ _ l => (3 + max_map (fun x => need x) l)%nat
+  | PObjArr _ _ _ sh l => (3 + length sh + max_map (fun x => need x) l)%nat
   | PMasked _ _ _ d k => S (Nat.max (need d) (need k))
   | PRandState _ _ _ x => S (need x)
   | PRandGen _ _ _ x y => S (Nat.max (need x) (need y))
@@ -90,29 +93,156 @@ Proof.
   destruct (rec extra (SKey name k) m j) as [[n m1]|]; [|reflexivity]. cbn [bind]. rewrite IH. reflexivity.
 Qed.
 
-(* get_state(obj.tolist()) of a rank-1 object array: one fresh list around the states of the cells *)
-Lemma tolist_rank1 (f : pval -> clo) cells : forall st,
-  tolist_state [length cells] (map f cells) st
-  = let (lid, st0) := fresh st in
-    do (js, st1) <- states_of f cells st0; Ok (list_state js lid, [], st1).
+(* ---- lists in consecutive groups (the cells of an object array below its first axis) ---- *)
+Lemma run_all_states (f : pval -> clo) l st : run_all (map f l) st = states_of f l st.
 Proof.
-  intros st. cbn [tolist_state]. destruct (fresh st) as [lid st0].
-  match goal with |- context [(fix rep (n : nat) (cs : list clo) (st : dst) {struct n} := _)] =>
-    set (rep := (fix rep (n : nat) (cs : list clo) (st : dst) {struct n} : res (list json * list clo * dst) := _)) end.
-  assert (Hrep : forall cells st0, rep (length cells) (map f cells) st0
-                 = do (js, st1) <- states_of f cells st0; Ok (js, [], st1)).
-  { clear. induction cells as [|x cells IH]; intros st0; [reflexivity|].
-    cbn [length map states_of]. unfold rep at 1. cbn [tolist_state]. fold rep.
-    destruct (f x st0) as [[j st1]|]; [|reflexivity]. cbn [bind]. rewrite IH.
-    destruct (states_of f cells st1) as [[js st2]|]; reflexivity. }
-  rewrite Hrep. destruct (states_of f cells st0) as [[js st1]|]; reflexivity.
+  revert st. induction l as [|x l IH]; intros st; [reflexivity|]. cbn [map run_all states_of].
+  destruct (f x st) as [[j st1]|]; [|reflexivity]. cbn [bind]. rewrite IH. reflexivity.
 Qed.
-(* get_state(obj.shape) of a rank-1 array whose length is a cached small int: one fresh tuple around the int *)
-Lemma shape_state_small n st : is_small_int n = true ->
-  shape_state [n] st
-  = (node_state (CodecDump.K "tuple") (CodecDump.K "builtins") (CodecDump.K "TupleNode")
-       [(CodecDump.K "content", JArr [json_state (show_Z n) (small_int_base + n)])] (d_next st), snd (fresh st)).
-Proof. intros H. unfold shape_state, fresh. cbn [shape_items]. unfold int_obj. rewrite H. reflexivity. Qed.
+Lemma chunks_map {A B} (f : A -> B) k d : forall l, chunks k d (map f l) = map (map f) (chunks k d l).
+Proof.
+  induction d as [|d IH]; intros l; [reflexivity|]. cbn [chunks map]. rewrite firstn_map, skipn_map, IH. reflexivity.
+Qed.
+Lemma chunks_length {A} k d (l : list A) : length (chunks k d l) = d.
+Proof. revert l. induction d as [|d IH]; intros l; [reflexivity|]. cbn [chunks length]. rewrite IH. reflexivity. Qed.
+Lemma chunks_concat {A} k d : forall (l : list A), length l = (d * k)%nat -> concat (chunks k d l) = l.
+Proof.
+  induction d as [|d IH]; intros l Hl; cbn [chunks concat].
+  - destruct l; [reflexivity|discriminate Hl].
+  - rewrite IH by (rewrite skipn_length; cbn in Hl; lia). apply firstn_skipn.
+Qed.
+Lemma chunks_in {A} k d : forall (l ch : list A) x, In ch (chunks k d l) -> In x ch -> In x l.
+Proof.
+  induction d as [|d IH]; intros l ch x Hch Hx; cbn [chunks] in Hch; [destruct Hch|]. destruct Hch as [<-|Hch].
+  - rewrite <- (firstn_skipn k l). apply in_or_app. left. exact Hx.
+  - rewrite <- (firstn_skipn k l). apply in_or_app. right. eapply IH; eassumption.
+Qed.
+Lemma chunks1 {A} : forall (l : list A), chunks 1 (length l) l = map (fun x => [x]) l.
+Proof. induction l as [|x l IH]; [reflexivity|]. cbn [length chunks firstn skipn map]. rewrite IH. reflexivity. Qed.
+Lemma sum_map_app {A} (f : A -> nat) a b : sum_map f (a ++ b) = (sum_map f a + sum_map f b)%nat.
+Proof. induction a as [|x a IH]; [reflexivity|]. cbn [app sum_map]. rewrite IH. lia. Qed.
+Lemma sum_map_concat {A} (f : A -> nat) (chs : list (list A)) : sum_map f (concat chs) = sum_map (fun ch => sum_map f ch) chs.
+Proof. induction chs as [|ch chs IH]; [reflexivity|]. cbn [concat sum_map]. rewrite sum_map_app, IH. reflexivity. Qed.
+
+(* get_state(obj.shape) as a loop of closures: one per axis *)
+Definition int_clo (d : Z) : clo := fun st => let (i, st1) := int_obj d st in Ok (json_state (show_Z d) i, st1).
+Lemma shape_items_run dims : forall st, run_all (map int_clo dims) st = Ok (shape_items dims st).
+Proof.
+  induction dims as [|d dims IH]; intros st; [reflexivity|]. cbn [map run_all shape_items]. unfold int_clo at 1.
+  destruct (int_obj d st) as [i st1]. cbn [bind]. rewrite IH. destruct (shape_items dims st1) as [rest st2]. reflexivity.
+Qed.
+
+Lemma Forall2_len2 {A B} (R : A -> B -> Prop) a b : Forall2 R a b -> length a = length b.
+Proof. induction 1; cbn [length]; congruence. Qed.
+
+(* ---- get_state(obj.tolist()): the nested fresh lists, one ListNode per axis below the first ---- *)
+(* w is the list tolist() yields for a sub-array of shape dims whose cells (C order) are seg: the loader's filling loop finds
+   exactly these cells in it; its size and rank are bounded by the shape and the cells *)
+Definition TL (dims : list nat) (seg : list pval) (w : pval) : Prop :=
+  fill (map Z.of_nat dims) w = Ok seg
+  /\ (size w <= nl dims + sum_map (fun x => size x) seg)%nat
+  /\ (need w <= length dims + max_map (fun x => need x) seg)%nat.
+
+Lemma take_fill_all rec : forall l rs, Forall2 (fun x r => rec x = Ok r) l rs ->
+  take_fill rec (Z.of_nat (length l)) l = Ok (concat rs).
+Proof.
+  induction 1 as [|x r l rs Hx Hl IH]; [reflexivity|]. cbn [length take_fill concat].
+  replace (Z.of_nat (S (length l)) <=? 0)%Z with false by (symmetry; apply Z.leb_gt; lia).
+  rewrite Hx. cbn [bind]. replace (Z.of_nat (S (length l)) - 1)%Z with (Z.of_nat (length l)) by lia. rewrite IH. reflexivity.
+Qed.
+
+Lemma max_map_le {A} (f : A -> nat) l b : (forall x, In x l -> (f x <= b)%nat) -> (max_map f l <= b)%nat.
+Proof. induction l as [|x l IH]; intros H; cbn [max_map]; [lia|]. pose proof (H x (or_introl eq_refl)). specialize (IH (fun y Hy => H y (or_intror Hy))). lia. Qed.
+
+(* the items of one level: as many sub-lists as the axis is long, each over its own group of cells *)
+Lemma TL_level ds d seg l :
+  length seg = (d * nprod ds)%nat ->
+  Forall2 (fun (T : pval -> Prop) v => T v) (map (TL ds) (chunks (nprod ds) d seg)) l ->
+  length l = d
+  /\ take_fill (fill (map Z.of_nat ds)) (Z.of_nat d) l = Ok seg
+  /\ (sum_map (fun x => size x) l <= d * nl ds + sum_map (fun x => size x) seg)%nat
+  /\ (forall w, In w l -> (need w <= length ds + max_map (fun x => need x) seg)%nat
+                           /\ (size w <= nl ds + sum_map (fun x => size x) seg)%nat).
+Proof.
+  intros Hlen HT.
+  assert (Hl : length l = d).
+  { apply Forall2_len2 in HT. rewrite map_length, chunks_length in HT. congruence. }
+  split; [exact Hl|].
+  assert (Hin : forall ch, In ch (chunks (nprod ds) d seg) -> forall x, In x ch -> In x seg) by (intros ch Hch x Hx; eapply chunks_in; eassumption).
+  pose proof (chunks_concat (nprod ds) d seg Hlen) as Hcat.
+  revert HT Hin Hcat. generalize (chunks (nprod ds) d seg) as chs. intros chs HT Hin Hcat.
+  assert (Hgen : take_fill (fill (map Z.of_nat ds)) (Z.of_nat (length l)) l = Ok (concat chs)
+                 /\ (sum_map (fun x => size x) l <= length l * nl ds + sum_map (fun x => size x) (concat chs))%nat
+                 /\ (forall w, In w l -> exists ch, In ch chs /\ TL ds ch w)).
+  { clear -HT. remember (map (TL ds) chs) as Ts eqn:ETs. revert chs ETs.
+    induction HT as [|T w Ts l Hw Hr IH]; intros chs ETs.
+    - destruct chs; [|discriminate ETs]. repeat split; try reflexivity. intros w [].
+    - destruct chs as [|ch chs]; [discriminate ETs|]. cbn [map] in ETs. injection ETs as -> ETs.
+      destruct (IH chs ETs) as [H1 [H2 H3]]. destruct Hw as [Hf [Hs Hn]]. split; [|split].
+      + cbn [length take_fill concat]. replace (Z.of_nat (S (length l)) <=? 0)%Z with false by (symmetry; apply Z.leb_gt; lia).
+        rewrite Hf. cbn [bind]. replace (Z.of_nat (S (length l)) - 1)%Z with (Z.of_nat (length l)) by lia. rewrite H1. reflexivity.
+      + cbn [length sum_map concat]. rewrite sum_map_app. lia.
+      + intros w' [<-|Hw']; [exists ch; split; [left; reflexivity|repeat split; assumption]|].
+        destruct (H3 w' Hw') as [ch' [Hc' HT']]. exists ch'. split; [right; exact Hc'|exact HT']. }
+  destruct Hgen as [G1 [G2 G3]]. rewrite Hl, Hcat in *. split; [exact G1|]. split; [exact G2|].
+  intros w Hw. destruct (G3 w Hw) as [ch [Hch [_ [Hs Hn]]]].
+  assert (Hsub : forall x, In x ch -> In x seg) by (apply Hin; exact Hch).
+  split.
+  - assert (max_map (fun x => need x) ch <= max_map (fun x => need x) seg)%nat; [|lia].
+    apply max_map_le. intros x Hx. apply (max_map_in (fun x => need x)). apply Hsub. exact Hx.
+  - assert (sum_map (fun x => size x) ch <= sum_map (fun x => size x) seg)%nat; [|lia].
+    rewrite <- Hcat. rewrite sum_map_concat. apply (sum_map_in (fun c0 => sum_map (fun x => size x) c0)). exact Hch.
+Qed.
+
+(* the items of the list whose content the array's state keeps *)
+Definition content_Ts (dims : list nat) (cells : list pval) : list (pval -> Prop) :=
+  match dims with
+  | [] => [TL [] cells]
+  | d :: ds => map (TL ds) (chunks (nprod ds) d cells)
+  end.
+Lemma TL_rank1 cells : forall l, Forall2 (fun (T : pval -> Prop) v => T v) (map (TL []) (map (fun x => [x]) cells)) l -> l = cells.
+Proof.
+  induction cells as [|c cells IH]; intros l HT; cbn [map] in HT; inversion HT as [|T w Ts l' Hw Hl']; subst; [reflexivity|].
+  destruct Hw as [Hf _]. cbn [map fill] in Hf. injection Hf as ->. f_equal. apply IH. exact Hl'.
+Qed.
+Lemma nprod_zero xs : In 0%Z xs -> nprod (map Z.to_nat xs) = 0%nat.
+Proof. induction xs as [|x xs IH]; intros H; [destruct H|]. cbn [map nprod]. destruct H as [->|H]; [reflexivity|]. rewrite (IH H). lia. Qed.
+
+(* what the loader makes of these items *)
+Lemma content_fill shape cells l :
+  shape_okb shape (length cells) = true ->
+  Forall2 (fun (T : pval -> Prop) v => T v) (content_Ts (map Z.to_nat shape) cells) l ->
+  (forall d, shape = [d] -> l = cells /\ d = Z.of_nat (length cells))
+  /\ fill_array shape l = Ok cells
+  /\ (forall w, In w l -> (need w <= length shape + max_map (fun x => need x) cells)%nat
+                          /\ (S (size w) <= 3 + length shape + nl (map Z.to_nat shape) + sum_map (fun x => size x) cells)%nat).
+Proof.
+  intros Hok HT. destruct (shape_ok_nat _ _ Hok) as [Hpos [Hid Hlen]].
+  destruct shape as [|d0 sh].
+  - cbn [map content_Ts] in HT. cbn [map nprod] in Hlen. inversion HT as [|T w Ts l' Hw Hl']; subst. inversion Hl'; subst.
+    destruct Hw as [Hf [Hs Hn]]. cbn [map fill] in Hf. destruct cells as [|c [|c' cells]]; try discriminate Hlen. injection Hf as ->.
+    split; [intros d Hd; discriminate Hd|]. split; [reflexivity|]. intros w' [<-|[]]. cbn [length map nl sum_map max_map] in *. lia.
+  - cbn [map content_Ts] in HT. cbn [map nprod] in Hlen. set (d := Z.to_nat d0) in *. set (ds := map Z.to_nat sh) in *.
+    inversion Hpos as [|? ? Hd0 Hsh]; subst.
+    assert (Hidd : Z.of_nat d = d0) by (unfold d; apply Z2Nat.id; exact Hd0).
+    assert (Hids : map Z.of_nat ds = sh) by (cbn [map] in Hid; injection Hid as _ Hid; exact Hid).
+    destruct (TL_level ds d cells l Hlen HT) as [Hl [Hfill [Hsz Hw]]].
+    split; [|split].
+    + intros d' Hd'. injection Hd' as <- ->. cbn [map nprod] in *. fold d in HT.
+      assert (Hc1 : length cells = d) by (unfold ds in Hlen; cbn [nprod] in Hlen; lia).
+      split; [|lia]. rewrite <- Hc1, chunks1 in HT. apply TL_rank1. exact HT.
+    + unfold fill_array. destruct (existsb (Z.eqb 0) (d0 :: sh)) eqn:Hz.
+      * (* a zero-length axis: no cell *)
+        f_equal. symmetry. apply length_zero_iff_nil. rewrite Hlen.
+        apply existsb_exists in Hz. destruct Hz as [z [Hz Hz0]]. apply Z.eqb_eq in Hz0. subst z.
+        change (d * nprod ds)%nat with (nprod (map Z.to_nat (d0 :: sh))). apply nprod_zero. exact Hz.
+      * rewrite <- Hidd, <- Hids. exact Hfill.
+    + intros w Hw'. destruct (Hw w Hw') as [Hn Hs]. cbn [length map nl]. fold d ds.
+      assert (1 <= d)%nat by (destruct l as [|? ?]; [destruct Hw'|cbn [length] in Hl; lia]).
+      assert (Hlds : length ds = length sh) by (unfold ds; apply map_length).
+    split; [lia|]. assert (nl ds <= d * nl ds)%nat by (destruct d; [lia|cbn; lia]). lia.
+Qed.
+
 
 (* the facts about classes are consistent with what the builtin container names denote *)
 Definition sane_names : list pstr :=
@@ -284,6 +414,17 @@ Section Share.
       forall fuel m sl, (need v <= fuel)%nat -> memo_lt m (d_next st) -> Pre st j st' ->
         exists n m', get_tree fuel E proto [] sl m j = Ok (n, m') /\ Res v sl m n m' (d_next st').
 
+  (* the same for one run of a closure: a state producer whose value (an object the dumper creates itself: a tolist()
+     list, a shape tuple, a fresh int) may depend on the allocator state it starts from *)
+  Definition QB (v : pval) (st : dst) (j : json) (st' : dst) : Prop :=
+    d_late st' = d_late st /\ (d_next st <= d_next st')%Z /\ Post st j st' /\
+    forall fuel m sl, (need v <= fuel)%nat -> memo_lt m (d_next st) -> Pre st j st' ->
+      exists n m', get_tree fuel E proto [] sl m j = Ok (n, m') /\ Res v sl m n m' (d_next st').
+  Definition QC (T : pval -> Prop) (c : clo) : Prop :=
+    forall st j st', c st = Ok (j, st') -> (base <= d_next st)%Z -> exists v, T v /\ QB v st j st'.
+  Lemma Q_QC v : Q v -> QC (eq v) (fun s0 => get_state D v s0).
+  Proof. intros H st j st' Hc Hb. exists v. split; [reflexivity|]. exact (H st j st' Hc Hb). Qed.
+
   Lemma memo_lt_le m B B' : (B <= B')%Z -> memo_lt m B -> memo_lt m B'.
   Proof. intros H Hm h Hh. destruct (Hm h Hh) as [z [-> Hz]]. exists z. split; [reflexivity|lia]. Qed.
   Lemma memo_lt_cons i m B : (i < B)%Z -> memo_lt m B -> memo_lt (key i :: m) B.
@@ -400,6 +541,77 @@ Section Share.
     intros Hl st js st' H Hb. destruct (gen_share l Hl _ _ _ H Hb) as [H1 [H2 [Hlen [Hpost HG0]]]]. split; [exact H1|]. split; [exact H2|].
     split; [exact Hpost|]. intros fuel m name Hn Hm Hpre.
     destruct (HG0 fuel m (map (fun _ => SElem name) js) Hn Hm ltac:(rewrite map_length; exact Hlen) Hpre) as [ns [m' [Hs [Hf2 Hrest]]]].
+    exists ns, m'. rewrite sub_list_gen, <- combine_const. split; [exact Hs|].
+    split.
+    { clear -Hf2. remember (map (fun _ : json => SElem name) js) as sls eqn:Es. revert js Es.
+      induction Hf2 as [|n sl ns sls Hn Hr IH]; intros js Es; [constructor|]. destruct js as [|j js]; [discriminate Es|].
+      cbn [map] in Es. injection Es as -> Es. constructor; [exact Hn|eapply IH; eauto]. }
+    split; [|exact Hrest].
+    apply Forall2_len in Hf2. rewrite map_length in Hf2. congruence.
+  Qed.
+
+  (* the same loops over closures whose values are only known per run *)
+  Lemma gen_shareC Ts cs : Forall2 QC Ts cs ->
+    forall st js st', run_all cs st = Ok (js, st') -> (base <= d_next st)%Z ->
+      d_late st' = d_late st /\ (d_next st <= d_next st')%Z /\ length js = length cs /\ PostL st js st' /\
+      exists l, Forall2 (fun (T : pval -> Prop) v => T v) Ts l /\
+      forall fuel m sls, (forall x, In x l -> (need x <= fuel)%nat) -> memo_lt m (d_next st) -> length sls = length l ->
+        PreL st js st' ->
+        exists ns m', sub_gen (get_tree fuel E proto []) (combine sls js) m = Ok (ns, m')
+          /\ Forall2 (fun n sl => node_slot n = sl /\ notleaf n = true) ns sls
+          /\ mono m m' /\ grow m ns m' /\ memo_lt m' (d_next st') /\ LSpec ns l m /\ (forall x, In x ns -> allok x m').
+  Proof.
+    induction 1 as [|T c Ts cs Hx Hl IH]; intros st js st' H Hb; cbn [run_all] in H.
+    - injection H as <- <-. split; [reflexivity|]. split; [lia|]. split; [reflexivity|].
+      split; [split; [apply lk_refl|split; [intros j []|auto]]|]. exists []. split; [constructor|]. intros fuel m sls _ Hm Hlen _.
+      destruct sls; [|discriminate Hlen]. exists [], m. cbn [combine sub_gen].
+      split; [reflexivity|]. split; [constructor|]. split; [apply mono_refl|].
+      split; [intros h Hh; left; exact Hh|]. split; [exact Hm|]. split; [|intros ? []].
+      intros R K _ _ _ _. constructor.
+    - inv_bind H. destruct (Hx _ _ _ E0 Hb) as [x [HTx [Hl1 [Hn1 [[Hlk1 [Hft1 Hmok1]] Hx1]]]]].
+      destruct (IH _ _ _ E1 ltac:(lia)) as [Hl2 [Hn2 [Hlen2 [[Hlk2 [Hft2 Hmok2]] [lv [HTl IH1]]]]]].
+      split; [congruence|]. split; [lia|]. split; [cbn [length]; congruence|].
+      split.
+      { split; [eapply lk_trans; eauto|]. split; [|auto]. intros j0 [<-|Hj].
+        - eapply FTd_mono; [|exact Hlk2|exact Hft1]. auto.
+        - eapply FTd_mono; [exact Hmok1|apply lk_refl|exact (Hft2 j0 Hj)]. }
+      exists (x :: lv). split; [constructor; assumption|].
+      intros fuel m sls Hn Hm Hlen [Hmok [Hlkc Hfiles]].
+      destruct sls as [|sl sls]; [discriminate Hlen|]. cbn [length] in Hlen. cbn [combine sub_gen].
+      destruct (Hx1 fuel m sl (Hn _ (or_introl eq_refl)) Hm) as [n [m1 [Hg [Hsl [Hnl [Hmo [Hgr [Hlt [Hsp Hal]]]]]]]]].
+      { split; [exact Hmok|]. split; [eapply lk_trans; eauto|apply Hfiles; left; reflexivity]. }
+      destruct (IH1 fuel m1 sls (fun y Hy => Hn y (or_intror Hy)) Hlt ltac:(lia)) as [ns [m2 [Hg2 [Hsl2 [Hmo2 [Hgr2 [Hlt2 [Hls Hal2]]]]]]]].
+      { split; [auto|]. split; [exact Hlkc|intros j0 Hj; apply Hfiles; right; exact Hj]. }
+      exists (n :: ns), m2. rewrite Hg. cbn [bind]. rewrite Hg2. cbn [bind]. split; [reflexivity|].
+      split; [constructor; auto|]. split; [eapply mono_trans; eauto|]. split.
+      { intros h Hh. destruct (Hgr2 h Hh) as [H|H].
+        - destruct (Hgr h H) as [H'|H']; [left; exact H'|right]. cbn [flat_map] in *. rewrite app_nil_r in H'. apply in_or_app. left. exact H'.
+        - right. cbn [flat_map]. apply in_or_app. right. exact H. }
+      split; [exact Hlt2|]. split.
+      { intros R K Hsub HmR Hg0 Hsz. constructor.
+        - apply Hsp; [apply Hsub; left; reflexivity|exact HmR|]. eapply HG_mono; [|exact Hg0]. apply Hsz. left. reflexivity.
+        - apply (Hls R K); [intros y Hy; apply Hsub; right; exact Hy| |exact Hg0|intros w Hw; apply Hsz; right; exact Hw].
+          eapply minR_step; [exact HmR|apply Hsub; left; reflexivity|exact Hgr]. }
+      intros y [<-|Hy]; [eapply allok_mono; eauto|auto].
+  Qed.
+
+  (* what building the children of a content list gives, as the Node lemmas below use it *)
+  Definition ListRes (l : list pval) (st : dst) (js : list json) (st' : dst) : Prop :=
+    forall fuel m name, (forall x, In x l -> (need x <= fuel)%nat) -> memo_lt m (d_next st) -> PreL st js st' ->
+      exists ns m', sub_list (get_tree fuel E proto) [] name m js = Ok (ns, m')
+        /\ Forall (fun n => node_slot n = SElem name /\ notleaf n = true) ns /\ length ns = length l
+        /\ mono m m' /\ grow m ns m' /\ memo_lt m' (d_next st') /\ LSpec ns l m /\ (forall x, In x ns -> allok x m').
+
+  Lemma states_shareC Ts cs : Forall2 QC Ts cs ->
+    forall st js st', run_all cs st = Ok (js, st') -> (base <= d_next st)%Z ->
+      d_late st' = d_late st /\ (d_next st <= d_next st')%Z /\ PostL st js st' /\
+      exists l, Forall2 (fun (T : pval -> Prop) v => T v) Ts l /\ ListRes l st js st'.
+  Proof.
+    intros Hl st js st' H Hb. destruct (gen_shareC Ts cs Hl _ _ _ H Hb) as [H1 [H2 [Hlen [Hpost [l [HT HG0]]]]]]. split; [exact H1|]. split; [exact H2|].
+    split; [exact Hpost|]. exists l. split; [exact HT|]. intros fuel m name Hn Hm Hpre.
+    assert (Hll : length js = length l).
+    { rewrite Hlen. pose proof (Forall2_len _ _ _ Hl) as L1. pose proof (Forall2_len _ _ _ HT) as L2. congruence. }
+    destruct (HG0 fuel m (map (fun _ => SElem name) js) Hn Hm ltac:(rewrite map_length; exact Hll) Hpre) as [ns [m' [Hs [Hf2 Hrest]]]].
     exists ns, m'. rewrite sub_list_gen, <- combine_const. split; [exact Hs|].
     split.
     { clear -Hf2. remember (map (fun _ : json => SElem name) js) as sls eqn:Es. revert js Es.
@@ -546,18 +758,16 @@ Section Share.
   Definition seq_cls (q : seqkind) (c : pstr) : Prop :=
     match q with QList => c = s "list" | QTuple => c = s "tuple" | QSet => c = s "set" end.
 
-  Lemma seq_node q id c l st0 l0 st' :
+  Lemma seq_node_gen q id c l st0 l0 st' :
     let v := PSeq q id (s "builtins") c false l in
-    (Objs v \/ (base <= id)%Z) -> (0 < id)%Z -> seq_cls q c -> Forall Q l ->
-    states_of (fun x s0 => get_state D x s0) l st0 = Ok (l0, st') -> (base <= d_next st0)%Z ->
+    (Objs v \/ (base <= id)%Z) -> (0 < id)%Z -> seq_cls q c -> ListRes l st0 l0 st' ->
     forall fuel m sl B, (need v <= S fuel)%nat -> memo_lt m B -> (id < B)%Z -> (B <= d_next st0)%Z ->
       memo_mem (key id) m = false -> PreL st0 l0 st' ->
       exists n m', build E (get_tree fuel E proto) sl [] (seq_tag q) (seq_kind q) m
                      (node_state c (s "builtins") (seq_loader q) [(CodecDump.K "content", JArr l0)] id) = Ok (n, m')
                    /\ Res v sl m n m' (d_next st').
   Proof.
-    intros v Hv Hid Hc Hl E0 Hb fuel m sl B Hn Hm HidB HB Hmem HpreL.
-    destruct (states_share l Hl _ _ _ E0 Hb) as [Hlate [Hnext [_ HL]]].
+    intros v Hv Hid Hc HL fuel m sl B Hn Hm HidB HB Hmem HpreL.
     set (ld := seq_loader q). set (tag := seq_tag q). set (k := seq_kind q). cbn [need v] in Hn.
     assert (Hbd : build E (get_tree fuel E proto) sl [] tag k m (node_state c (s "builtins") ld [(CodecDump.K "content", JArr l0)] id)
             = do (h, m0) <- node_init sl k tag [] true m (node_state c (s "builtins") ld [(CodecDump.K "content", JArr l0)] id) JNull;
@@ -609,6 +819,20 @@ Section Share.
       intros x Hx. unfold subs in Hx. destruct ns as [|n1 ns'].
       + destruct Hx as [<-|[]]. apply allok_leaf.
       + apply Hal. exact Hx.
+  Qed.
+
+  Lemma seq_node q id c l st0 l0 st' :
+    let v := PSeq q id (s "builtins") c false l in
+    (Objs v \/ (base <= id)%Z) -> (0 < id)%Z -> seq_cls q c -> Forall Q l ->
+    states_of (fun x s0 => get_state D x s0) l st0 = Ok (l0, st') -> (base <= d_next st0)%Z ->
+    forall fuel m sl B, (need v <= S fuel)%nat -> memo_lt m B -> (id < B)%Z -> (B <= d_next st0)%Z ->
+      memo_mem (key id) m = false -> PreL st0 l0 st' ->
+      exists n m', build E (get_tree fuel E proto) sl [] (seq_tag q) (seq_kind q) m
+                     (node_state c (s "builtins") (seq_loader q) [(CodecDump.K "content", JArr l0)] id) = Ok (n, m')
+                   /\ Res v sl m n m' (d_next st').
+  Proof.
+    intros v Hv Hid Hc Hl E0 Hb. destruct (states_share l Hl _ _ _ E0 Hb) as [_ [_ [_ HL]]].
+    apply (seq_node_gen q id c l st0 l0 st' Hv Hid Hc HL).
   Qed.
 
   Lemma seq_Q q id c l : Objs (PSeq q id (s "builtins") c false l) -> seq_cls q c ->
@@ -1682,156 +1906,227 @@ Section Share.
     eapply ids_sub; [apply Hs; exact Hx|exact Hh'].
   Qed.
 
-  Definition shape_val (n : Z) (st : dst) : pval :=
-    PSeq QTuple (d_next st) (s "builtins") (s "tuple") false
-      [PScalar (if is_small_int n then small_int_base + n else d_next st + 1)%Z (SInt n)].
+  (* ================= objects the dumper creates itself, one run at a time ================= *)
 
-  Lemma shape_node n st1 shj st2 :
-    shape_state [n] st1 = (shj, st2) -> scalar_rt_ok (SInt n) = true ->
-    (is_small_int n = true -> Objs (PScalar (small_int_base + n) (SInt n))) -> (base <= d_next st1)%Z -> (0 < base)%Z ->
-    (d_next st1 < d_next st2)%Z /\ d_late st2 = d_late st1 /\ d_members st2 = d_members st1 /\ d_uuid st2 = d_uuid st1
-    /\ file_table shj = [] /\
-    forall fuel m1 sl, (2 <= fuel)%nat -> memo_lt m1 (d_next st1) -> MOK st2 -> lk_incl (d_members st2) (c_members C) ->
-      exists shn m2, get_tree fuel E proto [] sl m1 shj = Ok (shn, m2)
-        /\ node_slot shn = sl /\ notleaf shn = true /\ mono m1 m2 /\ grow m1 [shn] m2 /\ memo_lt m2 (d_next st2)
-        /\ Spec shn (shape_val n st1) m1 /\ allok shn m2.
+  (* a fresh int object: an axis length that is not one of CPython's cached small ints *)
+  Lemma fresh_int_QB d st : scalar_rt_ok (SInt d) = true -> (base <= d_next st)%Z -> (0 < base)%Z ->
+    QB (PScalar (d_next st) (SInt d)) st (json_state (show_Z d) (d_next st)) (snd (fresh st)).
   Proof.
-    intros Hsh Hrt Hio Hb Hb0. unfold shape_val. destruct (is_small_int n) eqn:Hsm.
-    - (* len(obj) is a cached small int *)
-      rewrite (shape_state_small n st1 Hsm) in Hsh. specialize (Hio eq_refl).
-      set (i := (small_int_base + n)%Z) in *.
-      set (st2' := snd (fresh st1)) in *.
-      assert (Hd2 : d_next st2' = (d_next st1 + 1)%Z) by reflexivity.
-      match type of Hsh with (?a, _) = _ => set (shj' := a) in Hsh end.
-      assert (Hft : file_table shj' = []) by reflexivity.
-      injection Hsh as <- <-. split; [lia|]. split; [reflexivity|]. split; [reflexivity|]. split; [reflexivity|]. split; [exact Hft|].
-      unfold shj'. clear Hft shj'. set (st2 := st2') in *.
-      intros fuel m1 sl Hfuel Hlt Hmok2 HpLk. destruct fuel as [|fuel]; [lia|].
-      set (kt := PSeq QTuple (d_next st1) (s "builtins") (s "tuple") false [PScalar i (SInt n)]).
-      assert (HQi : Forall Q [PScalar i (SInt n)]) by (constructor; [apply scalar_Q; assumption|constructor]).
-      rewrite (gt_step fuel sl m1 _ _ _ _ (d_next st1) (s "_general.TupleNode") KTuple); [|reflexivity|cbn; tauto|reflexivity].
-      assert (Hmem2 : memo_mem (key (d_next st1)) m1 = false) by (apply (memo_lt_fresh _ (d_next st1)); [exact Hlt|lia]).
-      rewrite Hmem2.
-      assert (Hx1 : Objs kt \/ (base <= d_next st1)%Z) by (right; lia).
-      assert (Hx2 : (0 < d_next st1)%Z) by lia.
-      assert (Hx3 : (base <= d_next st2)%Z) by lia.
-      assert (Hst : states_of (fun x s0 => get_state D x s0) [PScalar i (SInt n)] st2 = Ok ([json_state (show_Z n) i], st2)) by reflexivity.
-      destruct (seq_node QTuple (d_next st1) (s "tuple") [PScalar i (SInt n)] st2 [json_state (show_Z n) i] st2 Hx1 Hx2 eq_refl HQi Hst Hx3
-                  fuel m1 sl (d_next st2)) as [shn [m2 [Hkt [Hksl [Hknl [Hkmo [Hkgr [Hklt [Hksp Hkal]]]]]]]]].
-      { cbn [need max_map]. lia. }
-      { eapply memo_lt_le; [|exact Hlt]. lia. }
-      { lia. }
-      { lia. }
-      { exact Hmem2. }
-      { split; [exact Hmok2|]. split; [exact HpLk|]. intros j0 [<-|[]] e He. destruct He. }
-      exists shn, m2. split; [exact Hkt|]. auto 10.
-    - (* len(obj) > 256: a fresh int object *)
-      clear Hio. unfold shape_state, fresh in Hsh. cbn [shape_items] in Hsh. unfold int_obj, fresh in Hsh. rewrite Hsm in Hsh. cbn [d_next] in Hsh.
-      set (tid := d_next st1) in *. set (i := (tid + 1)%Z) in *.
-      injection Hsh as <- <-. cbn [d_next d_late d_members d_uuid].
-      split; [lia|]. split; [reflexivity|]. split; [reflexivity|]. split; [reflexivity|]. split; [reflexivity|].
-      intros fuel m1 sl Hfuel Hlt _ _. destruct fuel as [|[|fuel]]; try lia.
-      set (t0 := show_Z n).
-      rewrite (gt_step (S fuel) sl m1 _ _ _ _ tid (s "_general.TupleNode") KTuple); [|reflexivity|cbn; tauto|reflexivity].
-      assert (Hmem2 : memo_mem (key tid) m1 = false) by (apply (memo_lt_fresh _ tid); [exact Hlt|lia]).
-      rewrite Hmem2.
-      set (jt := node_state (CodecDump.K "tuple") (CodecDump.K "builtins") (CodecDump.K "TupleNode")
-                   [(CodecDump.K "content", JArr [json_state t0 i])] tid).
-      assert (Hbd : forall rec, build E rec sl [] (s "_general.TupleNode") KTuple m1 jt
-              = do (h, m0) <- node_init sl KTuple (s "_general.TupleNode") [] true m1 jt JNull;
-                do (c, m') <- rec [] (SElem (GetTree.K "content")) m0 (json_state t0 i);
-                Ok (Node h [c], m')).
-      { intros rec. unfold build. destruct (node_init _ _ _ _ _ _ _ _) as [[h m0]|]; [|reflexivity]. cbn [bind].
-        change (jindex jt (GetTree.K "content")) with (Ok (A:=json) (JArr [json_state t0 i])). cbn [bind jiter sub_list].
-        destruct (rec [] (SElem (GetTree.K "content")) m0 (json_state t0 i)) as [[c m']|]; reflexivity. }
-      rewrite Hbd. unfold jt at 1. rewrite init_eq by (try reflexivity; unfold tid; lia). cbn [bind]. clear Hbd.
-      unfold json_state at 1.
-      rewrite (gt_step fuel (SElem (GetTree.K "content")) (key tid :: m1) _ _ _ _ i (s "_general.JsonNode") KJson); [|reflexivity|cbn; tauto|reflexivity].
-      assert (Hm0 : memo_lt (key tid :: m1) (tid + 1)) by (apply memo_lt_cons; [lia|]; eapply memo_lt_le; [|exact Hlt]; unfold tid; lia).
-      rewrite (memo_lt_fresh _ (tid + 1) i Hm0 ltac:(unfold i; lia)).
-      set (ji := node_state (CodecDump.K "str") (CodecDump.K "builtins") (CodecDump.K "JsonNode")
-                   [(CodecDump.K "content", JStr t0); (CodecDump.K "is_json", JBool true)] i).
-      assert (Hbi : forall rec, build E rec (SElem (GetTree.K "content")) [] (s "_general.JsonNode") KJson (key tid :: m1) ji
-              = do (h, m0) <- node_init (SElem (GetTree.K "content")) KJson (s "_general.JsonNode") [] true (key tid :: m1) ji JNull;
-                Ok (Node (set_aux h (JStr t0)) [], m0)).
-      { intros rec. unfold build. destruct (node_init _ _ _ _ _ _ _ _) as [[h m0]|]; reflexivity. }
-      rewrite Hbi. unfold ji at 1. rewrite init_eq by (try reflexivity; unfold i, tid; lia). cbn [bind]. clear Hbi.
-      eexists. eexists. split; [reflexivity|].
-      set (hdT := mkh sl KTuple (s "_general.TupleNode") tid (CodecDump.K "tuple") (CodecDump.K "builtins") JNull).
-      set (hdI := set_aux (mkh (SElem (GetTree.K "content")) KJson (s "_general.JsonNode") i (CodecDump.K "str") (CodecDump.K "builtins") JNull) (JStr t0)).
-      set (kt := PSeq QTuple tid (s "builtins") (s "tuple") false [PScalar i (SInt n)]).
-      assert (Hsp : SpecN (Node hdT [Node hdI []]) kt m1).
-      { intros R _ _ _ cf Hcf. cbn [need max_map kt] in Hcf. destruct cf as [|[|cf]]; try lia.
-        assert (Hinn : construct_val C files R (S cf) (Node hdI []) = Ok (PScalar i (SInt n))).
-        { cbn [construct_val]. unfold cbody, hdI, set_aux, mkh. cbn [h_kind h_aux]. unfold scalar_rt_ok in Hrt. cbn [json_text] in Hrt. fold t0 in Hrt.
-          destruct (json_parse t0) as [sc'|]; [|discriminate Hrt]. cbn [bind].
-          destruct sc'; try discriminate Hrt. cbn [scalar_eqb] in Hrt. apply Z.eqb_eq in Hrt. subst z.
-          unfold nid, key. cbn [h_id]. rewrite key_div. reflexivity. }
-        generalize dependent (Node hdI []). intros inn Hinn.
-        change (construct_val C files R (S (S cf)) (Node hdT [inn])) with (cbody C files hdT [inn] (construct_val C files R (S cf))).
-        unfold cbody, hdT, mkh. cbn [h_kind]. fold (mkh sl KTuple (s "_general.TupleNode") tid (CodecDump.K "tuple") (CodecDump.K "builtins") JNull). fold hdT.
-        assert (Hgt : gt C hdT = Ok (s "builtins", s "tuple")).
-        { apply gt_ok; [reflexivity|reflexivity|apply lit_ne; discriminate|apply lit_ne; discriminate|apply not_missing; cbn; tauto]. }
-        rewrite Hgt. cbn [bind].
-        replace (strip_empty LEmptyList [inn]) with [inn].
-        2:{ cbn [strip_empty]. destruct inn as [? ?|? ?|? l0]; try reflexivity. cbn [construct_val] in Hinn. discriminate Hinn. }
-        cbn [mapM]. rewrite Hinn. cbn [bind].
-        pose proof HC as [HCn _]. pose proof Hsane as Hs'. unfold facts_sane in Hs'. apply andb_prop in Hs'. destruct Hs' as [Hnt _].
-        apply negb_true_iff in Hnt. change (qual (s "builtins") (s "tuple")) with (s "builtins.tuple"). rewrite HCn, Hnt.
-        change (pstr_eqb (s "builtins.tuple") (s "builtins.tuple")) with true. cbn iota.
-        unfold hdT. rewrite nid_mkh. reflexivity. }
-      split; [reflexivity|]. split; [reflexivity|]. split; [eapply mono_trans; apply mono_cons|]. split.
-      { intros h Hh. cbn [memo_mem] in Hh. apply orb_prop in Hh. destruct Hh as [Hh|Hh].
-        - right. apply hkey_eqb_eq in Hh. subst h. cbn. right. left. reflexivity.
-        - apply orb_prop in Hh. destruct Hh as [Hh|Hh]; [|left; exact Hh]. right. apply hkey_eqb_eq in Hh. subst h. cbn. left. reflexivity. }
-      split.
-      { apply memo_lt_cons; [lia|]. apply memo_lt_cons; [unfold i; lia|]. eapply memo_lt_le; [|exact Hlt]. unfold i, tid. lia. }
-      split; [apply Spec_of_SpecN; exact Hsp|].
-      intros t1 hd0 subs0 hk Hs Ht Hi. apply sub_node_inv in Hs. destruct Hs as [->|[x [[<-|[]] Hs]]].
-      + injection Ht as <- <-. cbn in Hi. injection Hi as <-. left. exists tid. split; [reflexivity|exact Hb].
-      + apply sub_node_inv in Hs. destruct Hs as [->|[y [[] Hs]]].
-        injection Ht as <- <-. cbn in Hi. injection Hi as <-. left. exists i. split; [reflexivity|unfold i; lia].
+    intros Hrt Hb Hb0. set (i := d_next st). set (t0 := show_Z d).
+    assert (Hn' : d_next (snd (fresh st)) = (i + 1)%Z) by reflexivity.
+    split; [reflexivity|]. split; [lia|]. split.
+    { split; [apply lk_refl|]. split; [apply FTd_nil; reflexivity|]. intros Hm0.
+      apply (MOK_next st); [reflexivity|lia|cbn; lia|exact Hm0]. }
+    intros fuel m sl Hfuel Hlt _. destruct fuel as [|fuel]; [cbn in Hfuel; lia|].
+    unfold json_state.
+    rewrite (gt_step fuel sl m _ _ _ _ i (s "_general.JsonNode") KJson); [|reflexivity|cbn; tauto|reflexivity].
+    rewrite (memo_lt_fresh _ i i Hlt ltac:(lia)).
+    set (ji := node_state (CodecDump.K "str") (CodecDump.K "builtins") (CodecDump.K "JsonNode")
+                 [(CodecDump.K "content", JStr t0); (CodecDump.K "is_json", JBool true)] i).
+    assert (Hbi : forall rec, build E rec sl [] (s "_general.JsonNode") KJson m ji
+            = do (h, m0) <- node_init sl KJson (s "_general.JsonNode") [] true m ji JNull;
+              Ok (Node (set_aux h (JStr t0)) [], m0)).
+    { intros rec. unfold build. destruct (node_init _ _ _ _ _ _ _ _) as [[h m0]|]; reflexivity. }
+    rewrite Hbi. unfold ji at 1. rewrite init_eq by (try reflexivity; unfold i; lia). cbn [bind]. clear Hbi.
+    eexists. eexists. split; [reflexivity|].
+    set (hdI := set_aux (mkh sl KJson (s "_general.JsonNode") i (CodecDump.K "str") (CodecDump.K "builtins") JNull) (JStr t0)).
+    assert (Hsp : SpecN (Node hdI []) (PScalar i (SInt d)) m).
+    { intros R _ _ _ cf Hcf. cbn [need] in Hcf. destruct cf as [|cf]; [lia|]. cbn [construct_val].
+      unfold cbody, hdI, set_aux, mkh. cbn [h_kind h_aux]. unfold scalar_rt_ok in Hrt. cbn [json_text] in Hrt. fold t0 in Hrt.
+      destruct (json_parse t0) as [sc'|]; [|discriminate Hrt]. cbn [bind].
+      destruct sc'; try discriminate Hrt. cbn [scalar_eqb] in Hrt. apply Z.eqb_eq in Hrt. subst z.
+      unfold nid, key. cbn [h_id]. rewrite key_div. reflexivity. }
+    unfold Res. cbn [node_slot notleaf]. split; [reflexivity|]. split; [reflexivity|]. split; [apply mono_cons|]. split.
+    { intros h Hh. cbn [memo_mem] in Hh. apply orb_prop in Hh. destruct Hh as [Hh|Hh]; [|left; exact Hh].
+      right. apply hkey_eqb_eq in Hh. subst h. cbn. left. reflexivity. }
+    split; [rewrite Hn'; apply memo_lt_cons; [lia|]; eapply memo_lt_le; [|exact Hlt]; unfold i; lia|].
+    split; [apply Spec_of_SpecN; exact Hsp|].
+    intros t1 hd0 subs0 hk Hs Ht Hi. apply sub_node_inv in Hs. destruct Hs as [->|[y [[] Hs]]].
+    injection Ht as <- <-. cbn in Hi. injection Hi as <-. left. exists i. split; [reflexivity|unfold i; lia].
   Qed.
 
-  (* ---- rank-1 object arrays: the cells travel as the content of the list tolist() creates (only its content is kept),
-     the shape as a fresh tuple around len(obj) ---- *)
-  Lemma objarr_Q id cells :
-    let n := Z.of_nat (length cells) in
-    Objs (PObjArr id (s "numpy") (s "ndarray") [n] cells) ->
-    scalar_rt_ok (SInt n) = true -> (is_small_int n = true -> Objs (PScalar (small_int_base + n) (SInt n))) ->
-    Forall Q cells -> Q (PObjArr id (s "numpy") (s "ndarray") [n] cells).
+  (* one axis length inside get_state(obj.shape) *)
+  Definition TI (d : Z) (v : pval) : Prop := exists i, v = PScalar i (SInt d).
+  Lemma int_QC d : scalar_rt_ok (SInt d) = true -> (0 < base)%Z ->
+    (is_small_int d = true -> Objs (PScalar (small_int_base + d) (SInt d))) -> QC (TI d) (int_clo d).
   Proof.
-    intros n Hv Hrt Hio HQ st j st3 H Hb. cbn [get_state map] in H.
-    replace (Z.to_nat n) with (length cells) in H by (unfold n; rewrite Nat2Z.id; reflexivity).
-    rewrite (tolist_rank1 (fun x s0 => get_state D x s0)) in H.
+    intros Hrt Hb0 Hio st j st' H Hb. unfold int_clo, int_obj in H. destruct (is_small_int d) eqn:Hsm.
+    - injection H as <- <-. exists (PScalar (small_int_base + d) (SInt d)). split; [eexists; reflexivity|].
+      apply (scalar_Q _ _ (Hio eq_refl) Hrt); [reflexivity|exact Hb].
+    - destruct (fresh st) as [i st1] eqn:Hf. injection H as <- <-.
+      assert (Hi : i = d_next st /\ st1 = snd (fresh st)) by (rewrite Hf; unfold fresh in Hf; injection Hf as <- <-; split; reflexivity).
+      destruct Hi as [-> ->]. exists (PScalar (d_next st) (SInt d)). split; [eexists; reflexivity|].
+      apply fresh_int_QB; assumption.
+  Qed.
+
+  (* a fresh list / tuple the dumper creates around the results of closures *)
+  Lemma fresh_seq_QB q c Ts cs st items st1 :
+    seq_cls q c -> Forall2 QC Ts cs -> (base <= d_next st)%Z -> (0 < base)%Z ->
+    run_all cs (snd (fresh st)) = Ok (items, st1) ->
+    exists l, Forall2 (fun (T : pval -> Prop) v => T v) Ts l
+      /\ QB (PSeq q (d_next st) (s "builtins") c false l) st
+            (node_state c (s "builtins") (seq_loader q) [(CodecDump.K "content", JArr items)] (d_next st)) st1.
+  Proof.
+    intros Hc HQ Hb Hb0 Hrun. set (lid := d_next st) in *. set (st0 := snd (fresh st)) in *.
+    assert (Hd : d_next st0 = (lid + 1)%Z /\ d_late st0 = d_late st /\ d_members st0 = d_members st /\ d_uuid st0 = d_uuid st)
+      by (repeat split; reflexivity).
+    destruct Hd as [Hna [Hla [Hma Hua]]].
+    destruct (states_shareC Ts cs HQ _ _ _ Hrun ltac:(lia)) as [Hlate1 [Hnext1 [[Hlk1 [Hft1 Hmok1]] [l [HT HL]]]]].
+    exists l. split; [exact HT|].
+    set (v := PSeq q lid (s "builtins") c false l).
+    set (jv := node_state c (s "builtins") (seq_loader q) [(CodecDump.K "content", JArr items)] lid).
+    assert (Hmoka : MOK st -> MOK st0) by (intros Hm0; apply (MOK_next st st0); [exact Hma|lia|lia|exact Hm0]).
+    assert (Hftj : file_table jv = flat_map file_table items).
+    { unfold jv. rewrite ft_node_state by reflexivity. cbn [dget flat_map snd app]. rewrite file_table_arr, app_nil_r.
+      change (pstr_eqb (s "file") (CodecDump.K "content")) with false. reflexivity. }
+    split; [congruence|]. split; [lia|]. split.
+    { split; [rewrite <- Hma; exact Hlk1|]. split; [|auto].
+      intros h x Hin. rewrite Hftj in Hin. apply in_flat_map in Hin. destruct Hin as [j0 [Hj0 Hin]].
+      exact (FTd_mono _ _ _ _ _ Hmoka (lk_refl _) (Hft1 j0 Hj0) h x Hin). }
+    intros fuel m sl Hn Hm [HpMOK [HpLk HpF]]. unfold v in Hn. cbn [need] in Hn. destruct fuel as [|fuel]; [lia|].
+    unfold jv.
+    rewrite (gt_step fuel sl m _ _ _ _ lid (seq_tag q) (seq_kind q)); [|reflexivity|destruct q; cbn; tauto|destruct q; reflexivity].
+    assert (Hmem : memo_mem (key lid) m = false) by (apply (memo_lt_fresh _ lid); [exact Hm|lia]).
+    rewrite Hmem.
+    apply (seq_node_gen q lid c l st0 items st1 (or_intror Hb) ltac:(unfold lid; lia) Hc HL fuel m sl (d_next st0)).
+    - cbn [need]. lia.
+    - eapply memo_lt_le; [|exact Hm]. lia.
+    - lia.
+    - lia.
+    - exact Hmem.
+    - split; [apply Hmoka; exact HpMOK|]. split; [exact HpLk|]. intros j0 Hj0 e He. apply HpF. fold jv. rewrite Hftj. apply in_flat_map. exists j0. auto.
+  Qed.
+
+  (* ---- get_state(obj.shape): the empty-tuple singleton for shape (), a fresh tuple around the axis lengths otherwise ---- *)
+  Definition empty_tuple_val : pval := PSeq QTuple empty_tuple_id (s "builtins") (s "tuple") false [].
+  Lemma TI_dims dims : forall l, Forall2 (fun (T : pval -> Prop) v => T v) (map TI dims) l -> Forall (fun d => (0 <= d)%Z) dims ->
+    mapM dim_of l = Ok dims /\ (forall x, In x l -> need x = 1%nat) /\ sum_map (fun x => size x) l = length dims.
+  Proof.
+    induction dims as [|d dims IH]; intros l H Hd; inversion H as [|T v Ts l' Hv Hl]; subst.
+    - repeat split. intros x [].
+    - inversion Hd as [|? ? Hd0 Hd']; subst. destruct (IH _ Hl Hd') as [H1 [H2 H3]]. destruct Hv as [i ->].
+      cbn [mapM dim_of]. replace (d <? 0)%Z with false by (symmetry; apply Z.ltb_ge; exact Hd0). cbn [bind]. rewrite H1. cbn [bind].
+      split; [reflexivity|]. split; [intros x [<-|Hx]; [reflexivity|auto]|]. cbn [sum_map size length]. rewrite H3. reflexivity.
+  Qed.
+
+  Lemma shape_QB dims st1 shj st2 :
+    shape_state dims st1 = (shj, st2) ->
+    Forall (fun d => scalar_rt_ok (SInt d) = true) dims -> Forall (fun d => (0 <= d)%Z) dims ->
+    (forall d, In d dims -> is_small_int d = true -> Objs (PScalar (small_int_base + d) (SInt d))) ->
+    (dims = [] -> Objs empty_tuple_val) -> (base <= d_next st1)%Z -> (0 < base)%Z ->
+    exists tid items, mapM dim_of items = Ok dims /\ (forall x, In x items -> need x = 1%nat)
+      /\ sum_map (fun x => size x) items = length dims
+      /\ QB (PSeq QTuple tid (s "builtins") (s "tuple") false items) st1 shj st2.
+  Proof.
+    intros Hsh Hrt Hpos Hio Het Hb Hb0. unfold shape_state in Hsh. destruct dims as [|d0 dims0].
+    - cbn [shape_items] in Hsh. injection Hsh as <- <-. exists empty_tuple_id, []. split; [reflexivity|]. split; [intros x []|]. split; [reflexivity|].
+      apply (seq_Q QTuple empty_tuple_id (s "tuple") [] (Het eq_refl) eq_refl (Forall_nil _)); [reflexivity|exact Hb].
+    - set (dims := d0 :: dims0) in *. destruct (fresh st1) as [tid st0] eqn:Hf.
+      assert (Hi : tid = d_next st1 /\ st0 = snd (fresh st1)) by (rewrite Hf; unfold fresh in Hf; injection Hf as <- <-; split; reflexivity).
+      destruct Hi as [-> ->]. pose proof (shape_items_run dims (snd (fresh st1))) as Hrun.
+      destruct (shape_items dims (snd (fresh st1))) as [items st3]. injection Hsh as <- <-.
+      assert (HQ : forall ds, Forall (fun d => scalar_rt_ok (SInt d) = true) ds ->
+                     (forall d, In d ds -> is_small_int d = true -> Objs (PScalar (small_int_base + d) (SInt d))) ->
+                     Forall2 QC (map TI ds) (map int_clo ds)).
+      { induction ds as [|d ds IH]; intros Hrt' Hio'; cbn [map]; constructor.
+        - inversion Hrt'; subst. apply int_QC; [assumption|exact Hb0|]. apply Hio'. left. reflexivity.
+        - inversion Hrt'; subst. apply IH; [assumption|]. intros d' Hd'. apply Hio'. right. exact Hd'. }
+      specialize (HQ dims Hrt Hio).
+      destruct (fresh_seq_QB QTuple (s "tuple") _ _ st1 items st3 eq_refl HQ Hb Hb0 Hrun) as [l [HT HQB]].
+      destruct (TI_dims dims l HT Hpos) as [H1 [H2 H3]].
+      exists (d_next st1), l. split; [exact H1|]. split; [exact H2|]. split; [exact H3|exact HQB].
+  Qed.
+
+  (* ---- get_state(obj.tolist()): the nested fresh lists, one ListNode per axis below the first ---- *)
+  Lemma closures_chunks k d seg :
+    chunks k d (map (fun x s0 => get_state D x s0) seg) = map (map (fun x s0 => get_state D x s0)) (chunks k d seg).
+  Proof. apply chunks_map. Qed.
+
+  Lemma tolist_QC : forall dims seg, Forall Q seg -> length seg = nprod dims -> (0 < base)%Z ->
+    QC (TL dims seg) (tolist_state dims (map (fun x s0 => get_state D x s0) seg)).
+  Proof.
+    induction dims as [|d ds IH]; intros seg HQ Hlen Hb0.
+    - cbn [nprod] in Hlen. destruct seg as [|c [|c' seg]]; try discriminate Hlen. cbn [map tolist_state].
+      inversion HQ as [|? ? Hc _]; subst. intros st j st' H Hb. exists c. split; [|exact (Hc st j st' H Hb)].
+      split; [reflexivity|]. cbn [nl sum_map max_map length]. lia.
+    - cbn [nprod] in Hlen. rewrite tolist_state_cons, closures_chunks, map_map.
+      set (chs := chunks (nprod ds) d seg).
+      assert (HQs : Forall2 QC (map (TL ds) chs) (map (fun ch => tolist_state ds (map (fun x s0 => get_state D x s0) ch)) chs)).
+      { pose proof (chunks_Forall Q (nprod ds) d seg HQ) as H1. pose proof (chunks_len_each (nprod ds) d seg Hlen) as H2. fold chs in H1, H2.
+        clearbody chs. revert H1 H2. induction chs as [|ch chs IHc]; intros H1 H2; cbn [map]; constructor.
+        - inversion H1; inversion H2; subst. apply IH; assumption.
+        - inversion H1; inversion H2; subst. apply IHc; assumption. }
+      intros st j st' H Hb. unfold list_clo in H. destruct (fresh st) as [lid st0] eqn:Hf.
+      assert (Hi : lid = d_next st /\ st0 = snd (fresh st)) by (rewrite Hf; unfold fresh in Hf; injection Hf as <- <-; split; reflexivity).
+      destruct Hi as [-> ->].
+      destruct (run_all _ (snd (fresh st))) as [[items st1]|] eqn:Hrun; [|discriminate H]. cbn [bind] in H. injection H as <- <-.
+      destruct (fresh_seq_QB QList (s "list") _ _ st items st1 eq_refl HQs Hb Hb0 Hrun) as [l [HT HQB]].
+      exists (PSeq QList (d_next st) (s "builtins") (s "list") false l). split; [|exact HQB].
+      destruct (TL_level ds d seg l Hlen HT) as [Hl [Hfill [Hsz Hw]]].
+      split; [|split].
+      + cbn [map fill sub_items bind]. exact Hfill.
+      + cbn [size nl]. lia.
+      + cbn [need length]. assert (max_map (fun x => need x) l <= length ds + max_map (fun x => need x) seg)%nat; [|lia].
+        apply max_map_le. intros w Hw'. apply Hw. exact Hw'.
+  Qed.
+
+  Lemma content_QC dims cells : Forall Q cells -> length cells = nprod dims -> (0 < base)%Z ->
+    Forall2 QC (content_Ts dims cells) (content_clos dims (map (fun x s0 => get_state D x s0) cells)).
+  Proof.
+    intros HQ Hlen Hb0. destruct dims as [|d ds]; cbn [content_Ts content_clos].
+    - constructor; [apply tolist_QC; assumption|constructor].
+    - cbn [nprod] in Hlen. rewrite closures_chunks, map_map.
+      pose proof (chunks_Forall Q (nprod ds) d cells HQ) as H1. pose proof (chunks_len_each (nprod ds) d cells Hlen) as H2.
+      revert H1 H2. generalize (chunks (nprod ds) d cells) as chs. induction chs as [|ch chs IHc]; intros H1 H2; cbn [map]; constructor.
+      + inversion H1; inversion H2; subst. apply tolist_QC; assumption.
+      + inversion H1; inversion H2; subst. apply IHc; assumption.
+  Qed.
+
+  (* ---- object arrays of every rank: the cells travel as the content of the list tolist() creates (only its content is
+     kept; one ListNode per further axis, a one-element list around the cell for rank 0), the shape as the tuple obj.shape;
+     the loader fills np.empty(shape) cell by cell from these lists (rank 1: from the content itself) ---- *)
+  Lemma objarr_Q id shape cells :
+    Objs (PObjArr id (s "numpy") (s "ndarray") shape cells) ->
+    shape_okb shape (length cells) = true ->
+    Forall (fun d => scalar_rt_ok (SInt d) = true) shape ->
+    (forall d, In d shape -> is_small_int d = true -> Objs (PScalar (small_int_base + d) (SInt d))) ->
+    (shape = [] -> Objs empty_tuple_val) ->
+    Forall Q cells -> Q (PObjArr id (s "numpy") (s "ndarray") shape cells).
+  Proof.
+    intros Hv Hok Hrt Hio Het HQ st j st3 H Hb. cbn [get_state] in H. rewrite Hok in H.
+    destruct (shape_ok_nat _ _ Hok) as [Hpos [Hidm Hlen]].
     destruct (fresh st) as [lid sta] eqn:Hfr.
-    destruct (states_of _ cells sta) as [[js st1]|] eqn:E0; [|discriminate H]. cbn [bind] in H.
-    change (jindex (list_state js lid) (CodecDump.K "content")) with (Ok (A:=json) (JArr js)) in H. cbn [bind] in H.
-    destruct (shape_state [n] st1) as [shj st2] eqn:Esh.
+    destruct (run_all _ sta) as [[js st1]|] eqn:E0; [|discriminate H]. cbn [bind] in H.
+    destruct (shape_state shape st1) as [shj st2] eqn:Esh.
     pose proof (Oid _ Hv) as Hid. cbn [pid] in Hid.
-    set (v := PObjArr id (s "numpy") (s "ndarray") [n] cells) in *.
+    set (v := PObjArr id (s "numpy") (s "ndarray") shape cells) in *.
     match type of H with Ok (?a, _) = _ => set (jv := a) in H end.
     injection H as <- <-.
     assert (Hd : lid = d_next st /\ d_next sta = (d_next st + 1)%Z /\ d_late sta = d_late st /\ d_members sta = d_members st /\ d_uuid sta = d_uuid st).
     { unfold fresh in Hfr. injection Hfr as <- <-. cbn. repeat split; reflexivity. }
     destruct Hd as [-> [Hna [Hla [Hma Hua]]]].
-    destruct (states_share cells HQ _ _ _ E0 ltac:(lia)) as [Hlate1 [Hnext1 [[Hlk1 [Hft1 Hmok1]] HL]]].
-    destruct (shape_node n st1 shj st2 Esh Hrt Hio ltac:(lia) ltac:(lia)) as [Hn2 [Hl2 [Hm2 [Hu2 [Hfts Hshape]]]]].
+    destruct (states_shareC _ _ (content_QC (map Z.to_nat shape) cells HQ Hlen ltac:(lia)) _ _ _ E0 ltac:(lia))
+      as [Hlate1 [Hnext1 [[Hlk1 [Hft1 Hmok1]] [l [HT HL]]]]].
+    destruct (content_fill shape cells l Hok HT) as [Hrank1 [Hfill Hbound]].
+    destruct (shape_QB shape st1 shj st2 Esh Hrt Hpos Hio Het ltac:(lia) ltac:(lia))
+      as [tid [dimv [Hdims [Hdn [Hds [Hl2 [Hn2 [[Hlk2 [Hfts Hmok2]] Hshape]]]]]]]].
+    set (kt := PSeq QTuple tid (s "builtins") (s "tuple") false dimv) in *.
     split; [congruence|]. split; [lia|].
-    assert (Hftj : file_table jv = flat_map file_table js).
+    assert (Hftj : file_table jv = flat_map file_table js ++ file_table shj).
     { unfold jv. rewrite ft_node_state by reflexivity. cbn [dget flat_map snd app].
       change (pstr_eqb (s "file") (CodecDump.K "content")) with false. change (pstr_eqb (s "file") (CodecDump.K "type")) with false.
       change (pstr_eqb (s "file") (CodecDump.K "shape")) with false. cbn iota. rewrite file_table_arr.
-      rewrite Hfts. cbn [file_table app]. rewrite !app_nil_r. reflexivity. }
+      cbn [file_table app]. rewrite !app_nil_r. reflexivity. }
     assert (Hmoka : MOK st -> MOK sta) by (intros Hm0; apply (MOK_next st sta); [exact Hma|lia|lia|exact Hm0]).
-    assert (Hmok2 : MOK st1 -> MOK st2) by (intros Hm0; apply (MOK_next st1 st2); [exact Hm2|lia|lia|exact Hm0]).
     assert (Hpost : Post st jv st2).
-    { split; [rewrite Hm2, <- Hma; exact Hlk1|]. split; [|auto]. rewrite Hm2.
-      intros h x Hin. rewrite Hftj in Hin. apply in_flat_map in Hin. destruct Hin as [j0 [Hj0 Hin]].
-      exact (FTd_mono _ _ _ _ _ Hmoka (lk_refl _) (Hft1 j0 Hj0) h x Hin). }
+    { split; [eapply lk_trans; [rewrite <- Hma; exact Hlk1|exact Hlk2]|]. split; [|auto].
+      intros h x Hin. rewrite Hftj in Hin. apply in_app_or in Hin. destruct Hin as [Hin|Hin].
+      - apply in_flat_map in Hin. destruct Hin as [j0 [Hj0 Hin]].
+        exact (FTd_mono _ _ _ _ _ Hmoka Hlk2 (Hft1 j0 Hj0) h x Hin).
+      - exact (FTd_mono _ _ _ _ _ (fun Hm0 => Hmok1 (Hmoka Hm0)) (lk_refl _) Hfts h x Hin). }
     split; [exact Hpost|].
     intros fuelq mq slq Hnq Hmq [HpMOK [HpLk HpF0]]. revert fuelq mq slq Hnq Hmq.
-    assert (HpF : incl (file_table jv) files) by exact HpF0. rewrite Hm2 in HpLk.
+    assert (HpF : incl (file_table jv) files) by exact HpF0.
     unfold jv. change id with (pid v).
     apply (Q_wrap v st st2 _ _ _ _ (s "_numpy.NdArrayNode") KNdArray); try assumption; try reflexivity; try (cbn [pid v]; lia); try (cbn; tauto).
     intros fuel m sl Hn Hm Hmem. unfold v in Hn. cbn [need] in Hn. fold v in Hn. destruct fuel as [|fuel]; [lia|]. cbn [pid v]. fold jv.
@@ -1842,19 +2137,17 @@ Section Share.
               Ok (Node (set_aux h (JStr (GetTree.K "json"))) (or_empty (GetTree.K "content") LEmptyList ns ++ [shn]), m2)).
     { intros rec. unfold build. destruct (node_init _ _ _ _ _ _ _ _) as [[h m0]|]; reflexivity. }
     rewrite Hbd. unfold jv at 1. rewrite init_eq by (try reflexivity; lia). cbn [bind]. clear Hbd.
-    (* the cells *)
-    destruct (HL (S fuel) (key id :: m) (GetTree.K "content")) as [ns [m1 [Hsub [Hsl [Hlen [Hmo [Hgr [Hlt [Hls Hal]]]]]]]]].
-    { intros x Hx. pose proof (max_map_in (fun x => need x) x cells Hx). cbn beta in *. lia. }
+    (* the cells, below the lists of the further axes *)
+    destruct (HL (S fuel) (key id :: m) (GetTree.K "content")) as [ns [m1 [Hsub [Hsl [Hlenn [Hmo [Hgr [Hlt [Hls Hal]]]]]]]]].
+    { intros x Hx. destruct (Hbound x Hx) as [Hx1 _]. lia. }
     { apply memo_lt_cons; [lia|]. eapply memo_lt_le; [|exact Hm]. lia. }
-    { split; [apply Hmoka; exact HpMOK|]. split; [exact HpLk|]. intros j0 Hj0 e He. apply HpF. rewrite Hftj. apply in_flat_map. exists j0. auto. }
+    { split; [apply Hmoka; exact HpMOK|]. split; [eapply lk_trans; [exact Hlk2|exact HpLk]|]. intros j0 Hj0 e He. apply HpF. rewrite Hftj. apply in_or_app. left. apply in_flat_map. exists j0. auto. }
     rewrite Hsub. cbn [bind].
-    (* the shape tuple, an object the dumper creates *)
-    set (kt := shape_val n st1).
+    (* the shape tuple *)
     destruct (Hshape (S fuel) m1 (SOne (GetTree.K "shape"))) as [shn [m2 [Hkt [Hksl [Hknl [Hkmo [Hkgr [Hklt [Hksp Hkal]]]]]]]]].
-    { lia. }
+    { unfold kt. cbn [need]. assert (max_map (fun x => need x) dimv <= 1)%nat by (apply max_map_le; intros x Hx; rewrite (Hdn x Hx); lia). lia. }
     { exact Hlt. }
-    { apply Hmok2; apply Hmok1; apply Hmoka; exact HpMOK. }
-    { rewrite Hm2; exact HpLk. }
+    { split; [apply Hmok1; apply Hmoka; exact HpMOK|]. split; [exact HpLk|]. intros e He. apply HpF. rewrite Hftj. apply in_or_app. right. exact He. }
     rewrite Hkt. cbn [bind]. clear Hkt. eexists. eexists. split; [reflexivity|].
     set (hd := set_aux (mkh sl KNdArray (s "_numpy.NdArrayNode") id (s "ndarray") (s "numpy") JNull) (JStr (GetTree.K "json"))).
     set (subs := or_empty (GetTree.K "content") LEmptyList ns ++ [shn]).
@@ -1868,21 +2161,28 @@ Section Share.
     { intros R Hs HmR Hg cf Hcf. destruct cf as [|cf]; [pose proof (need_pos v); lia|]. cbn [construct_val].
       unfold v in Hcf. cbn [need] in Hcf. fold v in Hcf.
       assert (Hkv : construct_val C files R cf shn = Ok kt).
-      { apply (Hksp R); [eapply sub_child; [exact Hs|exact Hins]| | |unfold kt, shape_val; cbn [need max_map]; lia].
+      { apply (Hksp R); [eapply sub_child; [exact Hs|exact Hins]| | |].
         - eapply minR_steps; [apply Hm0R; eassumption| |exact Hgr]. intros x Hx. eapply sub_child; [exact Hs|apply Hin; exact Hx].
-        - eapply HG_mono; [|exact Hg]. unfold kt, shape_val, v. cbn [size sum_map]. lia. }
-      assert (Hmap : mapM (construct_val C files R cf) ns = Ok cells).
+        - eapply HG_mono; [|exact Hg]. unfold kt, v. cbn [size]. rewrite Hds. lia.
+        - unfold kt. cbn [need]. assert (max_map (fun x => need x) dimv <= 1)%nat by (apply max_map_le; intros x Hx; rewrite (Hdn x Hx); lia). lia. }
+      assert (Hmap : mapM (construct_val C files R cf) ns = Ok l).
       { apply mapM_den.
         - apply (Hls R (size v)).
           + intros x Hx. eapply sub_child; [exact Hs|apply Hin; exact Hx].
           + apply Hm0R; assumption.
           + exact Hg.
-          + intros w Hw. pose proof (sum_map_in (fun x => size x) w cells Hw). unfold v. cbn [size]. cbn beta in *. lia.
-        - intros w Hw. pose proof (max_map_in (fun x => need x) w cells Hw). cbn beta in *. lia. }
+          + intros w Hw. destruct (Hbound w Hw) as [_ Hw2]. unfold v. cbn [size]. lia.
+        - intros w Hw. destruct (Hbound w Hw) as [Hw1 _]. lia. }
       unfold cbody, hd, set_aux, mkh. cbn [h_kind h_aux h_id h_module h_class h_slot h_tag h_extra].
       change (jstr_eqb (JStr (GetTree.K "json")) (s "numpy")) with false. cbn iota.
-      unfold subs. rewrite rev_unit, Hkv. unfold kt, shape_val. cbn [bind as_items]. rewrite rev_involutive, (strip_or_empty _ _ Hsl), Hmap. cbn [bind].
-      unfold nid, key. cbn [h_id]. rewrite key_div. reflexivity. }
+      unfold subs. rewrite rev_unit, Hkv. unfold kt. cbn [bind as_items]. rewrite rev_involutive, (strip_or_empty _ _ Hsl), Hmap. cbn [bind].
+      unfold nid, key. cbn [h_id]. rewrite key_div.
+      destruct dimv as [|x1 [|x2 dimv']].
+      - cbn [mapM] in Hdims. injection Hdims as <-. cbn [mapM bind]. rewrite Hfill. reflexivity.
+      - (* rank 1: len(tmp) decides *)
+        cbn [mapM dim_of bind] in Hdims. destruct (dim_of x1) as [d1|]; [|discriminate Hdims]. cbn [bind] in Hdims. injection Hdims as <-.
+        destruct (Hrank1 d1 eq_refl) as [-> ->]. reflexivity.
+      - rewrite Hdims. cbn [bind]. rewrite Hfill. reflexivity. }
     unfold Res. cbn [node_slot notleaf]. repeat split.
     - eapply mono_trans; [apply mono_cons|]. eapply mono_trans; eauto.
     - intros h Hh. cbn [flat_map ids]. rewrite app_nil_r. destruct (Hkgr h Hh) as [H|H].
@@ -1919,11 +2219,12 @@ Section Share.
     | POpFunc _ c a => resolvable F (s "operator") c = true /\ opfunc_attrs_ok c a /\ vok a
     | PArr _ gen mo c _ => arr_cls_ok gen mo c
     | PObjArr _ mo c shape cells =>
-        (* rank 1; if len(obj) is a cached small int it is an object of the value's universe *)
-        mo = s "numpy" /\ c = s "ndarray" /\ shape = [Z.of_nat (length cells)]
-        /\ scalar_rt_ok (SInt (Z.of_nat (length cells))) = true
-        /\ (is_small_int (Z.of_nat (length cells)) = true ->
-            Objs (PScalar (small_int_base + Z.of_nat (length cells)) (SInt (Z.of_nat (length cells)))))
+        (* every rank; the axis lengths that are cached small ints, and the empty tuple for shape (), are objects of the
+           value's universe (they may be met elsewhere in the value) *)
+        mo = s "numpy" /\ c = s "ndarray" /\ shape_okb shape (length cells) = true
+        /\ Forall (fun d => scalar_rt_ok (SInt d) = true) shape
+        /\ (forall d, In d shape -> is_small_int d = true -> Objs (PScalar (small_int_base + d) (SInt d)))
+        /\ (shape = [] -> Objs empty_tuple_val)
         /\ (fix all (l : list pval) : Prop := match l with [] => True | x :: l' => vok x /\ all l' end) cells
     | PSparse _ _ _ _ | PDType _ _ => True
     | PMasked _ mo c d k => mo = s "numpy.ma" /\ c = s "MaskedArray" /\ vok d /\ vok k
@@ -1963,7 +2264,7 @@ Section Share.
       apply Forall_map_snd. eapply Forall_imp2; [exact IH|apply vok_vals; exact Hvals].
     - intros id mo c f l IHf IH [Ho [-> [-> [Hi [Hf Hvals]]]]]. apply defdict_Q; try assumption; [apply IHf; exact Hf|].
       apply Forall_map_snd. eapply Forall_imp2; [exact IH|apply vok_vals; exact Hvals].
-    - intros id mo c sh l IH [Ho [-> [-> [-> [Hrt [Hio Hall]]]]]]. apply objarr_Q; try assumption.
+    - intros id mo c sh l IH [Ho [-> [-> [Hok [Hrt [Hio [Het Hall]]]]]]]. apply objarr_Q; try assumption.
       eapply Forall_imp2; [exact IH|apply vok_all; exact Hall].
     - intros id mo c d k IHd IHk [Ho [-> [-> [Hd Hk0]]]]. apply masked_Q; auto.
     - intros id mo c x IHx [Ho [Hr Hx]]. apply randstate_Q; auto.
